@@ -181,11 +181,11 @@ Definition fit_tilt (p : qplane) : result qplane :=
       match qp_masks p with
       | [mask] =>
           rbind (lstsq3 dxr dxc mask opd) (fun t =>
-          Ok (mkQPlane (qp_ps p) (qp_masks p) (Some (force (fit_mono dxr dxc mask opd t)))
+          Ok (mkQPlane (qp_ps p) (qp_masks p) (Some (force (fit_mono (S := QS) dxr dxc mask opd t)))
                        (qp_tilt p ++ [mk_tilt (snd (fst t)) (snd t)])))
       | masks =>
           rbind (lstsq_all dxr dxc masks opd) (fun ts =>
-          Ok (mkQPlane (qp_ps p) (qp_masks p) (Some (force (fit_seg dxr dxc masks opd ts)))
+          Ok (mkQPlane (qp_ps p) (qp_masks p) (Some (force (fit_seg (S := QS) dxr dxc masks opd ts)))
                        (qp_tilt p ++ map (fun t => mk_tilt (snd (fst t)) (snd t)) ts)))
       end
     end
@@ -196,7 +196,7 @@ Definition add_opd (p : qplane) (delta : arr QS) : qplane :=
   match qp_opd p with
   | None => p
   | Some opd => mkQPlane (qp_ps p) (qp_masks p)
-                  (Some (force (mkArr (nr opd) (nc opd) (fun i j => (get opd i j + get delta i j)%Qc)))) (qp_tilt p)
+                  (Some (force (S := QS) (mkArr (nr opd) (nc opd) (fun i j => (get opd i j + get delta i j)%K)))) (qp_tilt p)
   end.
 Definition update_and_fit (r : result qplane) (delta : arr QS) : result qplane :=
   rbind r (fun p => fit_tilt (add_opd p delta)).
